@@ -78,6 +78,13 @@ def gen_case(rng, idx, want_accept):
                 esc = lambda x: x.replace('\\', '\\\\').replace('"', '\\"').replace('$', '\\$')
                 t[1] = '"' + esc(t[2][:k]) + '\\\r\n' + esc(t[2][k:]) + '"'
                 t[2] = t[2][:k] + '\r\n' + t[2][k:]
+    # titles written as a substitution whose default spans two lines, inside double quotes: the line end counts
+    for it in items:
+        for t in it:
+            if t[0] == 'title' and t[2] is not None and rng.random() < 0.04:
+                a, b = rng.choice(['al', 'be', 'ga']) , rng.choice(['pha', 'ta', 'mma'])
+                t[1] = '"${VERIF_C06_UNSET_VARIABLE:-%s\n%s}"' % (a, b)
+                t[2] = a + '\n' + b
     # distribute over files: main, f1 (depth 1), f2 (depth 2)
     n = len(items)
     files = {'main': None}
@@ -115,6 +122,10 @@ def gen_case(rng, idx, want_accept):
             failat = rng.randint(1, 6)
         if kind == 'unknown-name':
             nm = rng.choice(['nosuch_option', 'nosuch_option', 'nosuch|depth', 'nosuch=1|x', 'nosuch|', '|nosuch', 'no such'])
+            secs = [d.name for d in decls[:-1] if d.typ == 'sec' and not d.is_multi and not (d.flags & (core.F_NODEFAULT | core.F_TITLE))]
+            if secs and rng.random() < 0.3:
+                # a declared section followed by a stray separator, or leading into nothing: resolves to no option
+                nm = rng.choice(secs) + rng.choice(['|', '|nosuch', '||', '|=', '=0|'])
             it[ti] = ['name', nm if G.word_ok(nm) else '"%s"' % nm, nm]
         elif kind == 'bad-value':
             sp, dec = rng.choice([('zz!', 'zz!'), ('"not a number"', 'not a number'), ("'1.2.3'", '1.2.3'), ('12abc', '12abc'), ('0x-5', '0x-5'), ('0b-1', '0b-1'),
